@@ -8,7 +8,7 @@ use serde_json::json;
 
 pub fn campaign(a: &Args) -> Campaign {
     Campaign {
-        histories: a.tier.pick(60, 1500),
+        histories: a.tier.pick(60, 5000),
         variants: a.tier.pick(6, 24),
         gen: GenParams { steps: 90, nkeys: 12, readers: false, cursors: false, reader_pending: false, reopen: true, delete_pct: 40, ..Default::default() },
         ver: VerMode::Off,
@@ -25,7 +25,7 @@ pub fn campaign(a: &Args) -> Campaign {
 /// one kind of query leaves in a cache must not change what another kind answers.
 pub fn campaign_versioned(a: &Args) -> Campaign {
     Campaign {
-        histories: a.tier.pick(50, 800),
+        histories: a.tier.pick(50, 2500),
         variants: a.tier.pick(4, 12),
         gen: GenParams {
             steps: 70,
